@@ -89,6 +89,15 @@ Definition verdict_c01 (x : N * list record * list oentry) : N :=
   let prop := tlist_eqb (tsort (observed_triples os)) (tsort (spec_accepted origin rs [])) && forallb oweights_ok os in
   (if nontrivial rs then 10 else 0) + (if negb prop then 2 else if conform entry_samples_eqb ms os then 0 else 1).
 
+(* the same decision for runs with --reuse-threads (reuse = true: a sample may be merged into the entry of an earlier, exited process or
+   thread, so only the multiset of times is compared) and / or --fold-recursive-prefix (entries and times as by default); these options are
+   not modelled, so there is no conformance part *)
+Definition verdict_c01_flags (x : bool * (N * list record * list oentry)) : N :=
+  let '(reuse, (origin, rs, os)) := x in
+  let strip (l : list triple) : list triple := if reuse then map (fun t => let '(_, _, tm) := t in (0, 0, tm)) l else l in
+  let prop := tlist_eqb (tsort (strip (observed_triples os))) (tsort (strip (spec_accepted origin rs []))) && forallb oweights_ok os in
+  (if nontrivial rs then 10 else 0) + (if prop then 0 else 2).
+
 (* ---- C17, decided on the observations (partial oracle: three clauses of the property that need no model) ---- *)
 Definition touches (pid tid : N) (r : record) : bool :=
   match r with
